@@ -67,12 +67,11 @@ Definition m_CZ : loc2 := fun xc zc xt zt r =>
   (xc, xorb zc xt, xt, xorb zt xc, xorb r (xc && xt && xorb zc zt)).
 Definition m_CY : loc2 := fun xc zc xt zt r =>
   (xc, xorb zc (xorb zt xt), xorb xt xc, xorb zt xc,
-   xorb r (xc && xorb xt zt && negb (xorb zc xt))).
+   xorb r (xc && xorb xt zt && negb (xorb zc zt))).
 Definition m_SWAP : loc2 := fun xc zc xt zt r => (xt, zt, xc, zc, r).
 Definition m_iSWAP : loc2 := fun xc zc xt zt r =>
   (xt, xorb (xorb xt zt) xc, xc, xorb (xorb xt zc) xc,
-   xorb r (xorb (xc && zc && negb xt && negb zt) (xorb (xt && zt && negb xc && negb zc)
-          (xorb (xc && negb zc && xt && negb zt) (xorb (xc && zc && xt && negb zt) (xc && negb zc && xt && zt)))))).
+   xorb r (xorb (negb xc && xt && zt) (xc && zc && negb xt))).
 
 (* ---- composite rules, in the order of the Python function bodies *)
 Definition m_FSWAP : loc2 :=
@@ -169,3 +168,10 @@ Definition loc2_eqb (f g : loc2) : bool :=
     let '(a, b, c, d, e) := f xc zc xt zt r in let '(a', b', c', d', e') := g xc zc xt zt r in
     Bool.eqb a a' && Bool.eqb b b' && Bool.eqb c c' && Bool.eqb d d' && Bool.eqb e e')
     bools) bools) bools) bools) bools.
+
+Definition oloc2_eqb (a b : option loc2) : bool :=
+  match a, b with
+  | Some f, Some g => loc2_eqb f g
+  | None, None => true
+  | _, _ => false
+  end.
